@@ -308,8 +308,13 @@ def execute(case):
             if k < 0.5 and model is not None and src not in ('const', 'zero'):
                 guesses = [float(T[rnd.randrange(1, 4)]), brk[0],
                            float(T[rnd.randrange(len(T) // 2, max(len(T) // 2 + 1, len(T) - 10))])]
-            elif k < 0.8:                            # several interior guesses, ascending
+            elif k < 0.8:                            # several interior guesses: ascending, descending or shuffled
                 guesses = sorted({float(T[rnd.randrange(4, len(T) - 5)]) for _ in range(3)} | {brk[0]})
+                if case['cseed'] % 3 == 1:
+                    guesses.reverse()
+                elif case['cseed'] % 3 == 2:
+                    rnd.shuffle(guesses)
+                info_guess_order = ('ascending', 'descending', 'shuffled')[case['cseed'] % 3]
         if case['tmid'] == 'scalar':
             v = brk[0]
             v = [v, int(v) if float(v).is_integer() else v, np.float64(v)][fi]
